@@ -273,6 +273,9 @@ Section Stmts.
       | Some _ => RErr 4
       | None => RErr 1
       end)
+    | SNPat pt e =>
+      if existsb (fun i => bound i en) (pat_ids pt) then RErr 5 else
+      rbind (tyof en e) (fun _ => ROk (map (fun i => (i, BVar None)) (pat_ids pt) ++ en))
     end.
 
   Fixpoint check_ss (en : env) (ss : list stmt) : rres env :=
